@@ -16,7 +16,8 @@ EXPLANATION = (
     "list, and exactly (0,0,0) for an empty list; (3) the sweep covers every state, stores the kernels' three "
     "results into the three fields in the kernels' slot order, measures max of the three |new-old| per sweep and "
     "exits only on change <= threshold; (4) the restriction receives the very strategies solve_reachability "
-    "returned. The conditioning itself is C03 (re-evaluated here as a prerequisite).")
+    "returned. The conditioning itself is C03 (re-evaluated here as a prerequisite)."
+    ' Also: nothing computed by one solve is handed to the next (pre:C10.2), and no kernel funnels its transitions through a dictionary keyed by a part of the transition (0:keyed).')
 ASSUMPTIONS = ["rewards are >= 0 (validated), so a constant <= 0 is an identity of max over expected rewards"]
 TECHNIQUE = "CFG dominance over the solve pipeline + symbolic kernel and sweep normal forms (ast)"
 
